@@ -3,13 +3,13 @@ import family
 import gen
 import lpev
 from props.c07 import comb
-from props.c08 import scaled, weakened
+from props.c08 import print_twin, scaled, weakened
 from vcommon import seed
 
 PROP = "C03"
 FAMS = ["reflexive", "sublist", "combination", "scaled", "equal_bounds", "infeasible_left", "empty_right",
         "separated", "feasible_vs_infeasible", "empty_left", "random", "contract_weaken", "contract_under_assumptions",
-        "contract_itf", "membership"]
+        "contract_itf", "membership", "print_twin", "huge_constant"]
 
 
 def feasible_list(rng, vs, n, dy=0.0):
@@ -58,6 +58,19 @@ def gen_case(rng, i):
         c.update(L=[], R=gen.rlist_raw(rng, vs, 1, 2))
     elif fam == "random":
         c.update(L=L, R=gen.rlist_raw(rng, vs, 1, 3))
+    elif fam == "print_twin":
+        # the question asked twice in one process, the second time about a list that PRINTS identically (one coefficient larger
+        # by 2^-14 of itself: up to 0.06 apart inside the box) -- whatever is remembered under a printed form confuses the two
+        tw = print_twin(rng, L) or L
+        c.update(kind="list_seq", seq=[(L, L), (tw, L), (L, tw), (tw, tw)])
+    elif fam == "huge_constant":
+        # a bound of 10^6 on a variable of its own (vacuous inside the box) next to a containment that fails by 2^-11:
+        # the size of unrelated data must not widen the comparison
+        v = vs[0]
+        small = ({v: rng.choice([1, -1])}, rng.choice([0, 1, 2]))
+        big = ({"q": rng.choice([1, -1])}, 10**6)
+        Lh = [small, big] if rng.random() < 0.5 else [big, small]
+        c.update(L=Lh, R=[weakened(small, -2.0**-11)] + ([big] if rng.random() < 0.5 else []))
     elif fam.startswith("contract"):
         inv, outv = vs[: max(1, nv // 2)], vs[max(1, nv // 2):] or ["o"]
         a1, p1 = feasible_list(rng, inv, rng.randint(1, 2))
@@ -125,6 +138,8 @@ def gen_cases(tier):
 def run_case(case):
     if case["kind"] == "list":
         evs = [lpev.ev_refines(case["L"], case["R"], case["fam"])]
+    elif case["kind"] == "list_seq":
+        evs = [lpev.ev_refines(a, b, case["fam"]) for a, b in case["seq"]]
     elif case["kind"] == "contract":
         a, b = (case["c2"], case["c1"]) if case["rev"] else (case["c1"], case["c2"])
         evs = [lpev.ev_crefines(a, b, case["how"])]
@@ -138,7 +153,8 @@ def main(tier, replay=None):
         PROP, tier, gen_cases(tier), run_case,
         "pairs generated with their ground truth by construction (reflexive, sub-list, positive combination, scaling, equal bounds, "
         "infeasible left, empty right, separated by >= 1 from a planted point, feasible vs infeasible, empty left, unrelated; contracts: "
-        "weakened / under the right side's assumptions / different interfaces; environment and implementation membership); truth is "
+        "weakened / under the right side's assumptions / different interfaces; environment and implementation membership; the same question "
+        "again about a list that prints identically; a vacuous bound of 10^6 next to a containment failing by 2^-11); truth is "
         "established by TLC from exact box-free Farkas certificates or a witness point; non-trivial = truth established and answer agrees",
         owner=lambda ev: PROP, replay=replay,
         extra=lambda rep, rd: __import__("lpalgo").conformance(rep, rd, PROP, {"refines", "is_empty"}, 240 if tier == "quick" else 4800, seed()),
